@@ -290,8 +290,44 @@ def r19_8(run, model):
                witness="Lib::Color::Red and Main's Light::Red(string) both become `type Red struct`: duplicate declaration, ambiguous `case Red:`")
 
 
+def r19_10(run, model):
+    run.rule("R19.10", "a variant struct and a type never share a Go name: variants, enums and structs are all declared at the top level of one "
+                       "Go file, so variant_struct_name also compares the variant's name with the names of the enums and of the structs "
+                       "(not only with the variants of other enums)")
+    GOC = "crates/compiler/src/go/compile.rs"
+    f = model.fn("variant_struct_name", GOC)
+
+    def name_used(table):
+        """some iteration over goenv.<table>() binds the name component of the (name, def) pairs and uses it"""
+        for n in S.walk(f.body):
+            if n["k"] == "For" and any(c["k"] == "MethodCall" and c["method"] == table for c in S.walk(n["iter"])):
+                pat, body = n["pat"], n["body"]
+            elif n["k"] == "MethodCall" and n["method"] in ("any", "find", "filter", "position", "all") and n["args"] and n["args"][0]["k"] == "Closure" \
+                    and any(c["k"] == "MethodCall" and c["method"] == table for c in S.walk(n["recv"])):
+                cl = n["args"][0]
+                if not cl["inputs"]:
+                    continue
+                pat, body = cl["inputs"][0], cl["body"]
+            else:
+                continue
+            pat = S.strip_refs(pat)
+            if pat["k"] != "PTuple" or not pat["elems"]:
+                continue
+            first = S.strip_refs(pat["elems"][0])
+            if first["k"] == "PIdent" and first["name"] in S.idents(body):
+                return True
+        return False
+    for table, what in (("enums", "enum"), ("structs", "struct")):
+        ok = name_used(table)
+        run.ob("R19.10", f"variant_struct_name|variant name compared with the {what} names", ok, site(GOC, f.node["sp"]),
+               f"an iteration over {table}() that reads the type name: {ok}",
+               witness="enum Paint { Color(Color), Clear } / enum Token { Token(string), Eof }: the output declares `type Color interface` and "
+                       "`type Color struct`; a variant Point in package Geo and struct Point in Main both become `type Point struct`")
+
+
 def run(run, model):
     run.try_rule(r19_8, model)
+    run.try_rule(r19_10, model)
     from rules import c07
     run.rule("R19.9", "instance names are rendered by the injective type printer (shared with C07 R07.3)")
     run.try_rule(c07.r07_3, model)
